@@ -95,7 +95,9 @@ func Init(cfg *config.Config) {
 	logLevel.Set(cfg.Logging.Level.Read())
 
 	// Subscribe to log level changes
-	subs.Add(cfg.Logging.Level.OnChange(func(newLevel slog.Level) {
+	subs.Add(cfg.Logging.Level.OnChange(func(slog.Level) {
+		// Notifications may overtake each other: apply the current setting, not the payload
+		newLevel := cfg.Logging.Level.Read()
 		logLevel.Set(newLevel)
 		slog.Info("Log level changed by configuration", "new_level", newLevel)
 	}))
